@@ -79,6 +79,7 @@ def make_source(name, spec, env):
         tokenizable=spec.get("tokenizable", True),
         lock=lock,
         fancy_ok=spec.get("fancy", True),
+        lazy=spec.get("lazy", False),
     )
     return {"obj": s, "user": a, "orig": a.copy(), "spec": spec}
 
@@ -196,6 +197,8 @@ class FromArrayOp:
                     spec["tokenizable"] = False
                 if rng.random() < ctx.p_simlock:
                     spec["lock"] = "L0"
+                if rng.random() < ctx.p_lazy_source:
+                    spec["lazy"] = True
             elif rng.random() < ctx.p_masked:
                 spec["masked"] = True
             ctx.recipe["sources"][name] = spec
@@ -217,7 +220,7 @@ class FromArrayOp:
                 args["lock"] = spec["lock"]
             elif rng.random() < 0.1:
                 args["lock"] = True
-            if rng.random() < ctx.p_custom_getitem:
+            if rng.random() < ctx.p_custom_getitem and not spec.get("lazy"):
                 args["getitem"] = "rec"
         elif rng.random() < 0.1:
             args["lock"] = True
@@ -275,6 +278,7 @@ class CreationOp:
         return da.eye(a["n"], chunks=a["chunks"], k=a["k"])
 
 
+BITGENS = [None, "Philox", "MT19937", "SFC64", "PCG64DXSM"]  # None = the default (PCG64)
 RANDOM_DISTS = [
     ("normal", 2), ("uniform", 2), ("random", 0), ("standard_normal", 0), ("integers", 2), ("poisson", 1),
     ("exponential", 1), ("gamma", 2), ("binomial", 2), ("beta", 2), ("chisquare", 1), ("standard_exponential", 0),
@@ -326,6 +330,12 @@ class RandomOp:
             ctx.recipe["generators"][gname] = dict(ctx.recipe["generators"][base["gen"]])
             shape = tuple(base["shape"])
             chunks = jsonable_chunks(rand_chunks(rng, shape))
+            if ctx.recipe["generators"][gname]["kind"] == "default_rng" and rng.random() < 0.5:
+                # equal seed, ANOTHER bit generator (PCG64 / Philox / MT19937 / SFC64), everything else
+                # -- chunks included -- identical: two different streams a name/seed scheme must tell apart
+                others = [b for b in BITGENS if b != ctx.recipe["generators"][gname].get("bitgen")]
+                ctx.recipe["generators"][gname]["bitgen"] = rng.choice(others)
+                return {"gen": gname, "dist": base["dist"], "shape": list(shape), "chunks": base["chunks"], "params": list(base["params"])}
             if rng.random() < 0.5:
                 # same number of blocks per axis, shifted boundaries
                 old = normalize_like(base["chunks"], shape)
@@ -342,6 +352,8 @@ class RandomOp:
                 "kind": rng.choice(["default_rng", "default_rng", "RandomState", "module"]),
                 "seed": rng.randint(0, 1000),
             }
+            if ctx.recipe["generators"][gname]["kind"] == "default_rng" and rng.random() < 0.3:
+                ctx.recipe["generators"][gname]["bitgen"] = rng.choice(BITGENS[1:])
         g = ctx.recipe["generators"][gname]
         dists = RANDOM_DISTS if g["kind"] == "default_rng" else RS_DISTS
         dist, npar = rng.choice(dists)
@@ -444,7 +456,10 @@ def get_generator(env, gname):
     da = _da()
     spec = env.specs_generators[gname]
     if spec["kind"] == "default_rng":
-        g = da.random.default_rng(spec["seed"])
+        if spec.get("bitgen"):
+            g = da.random.default_rng(getattr(np.random, spec["bitgen"])(spec["seed"]))
+        else:
+            g = da.random.default_rng(spec["seed"])
     elif spec["kind"] == "RandomState":
         g = da.random.RandomState(spec["seed"])
     else:
@@ -1291,6 +1306,7 @@ class Ctx:
         self.p_reduction_twin = 0.15
         self.p_fine_chunks = 0.0
         self.p_simlock = 0.0
+        self.p_lazy_source = 0.0
         self.p_custom_getitem = 0.0
         self.unary_fns = None
         self.n_generators = 2
